@@ -110,7 +110,9 @@ def main(tier):
                     ev("Array[%s].CreateCopy(unit=v)" % kind, lambda: a.CreateCopy(unit=v), src_kind=kind)
                     ev("Array[%s].CreateCopy(unit=v, category=c)" % kind, lambda: a.CreateCopy(unit=v, category=cat), src_kind=kind)
                 # a history: the container a conversion returned is changed by the caller, the same conversion is asked again
-                for kind in ("list", "ndarray"):
+                # (not for a pair whose conversion is the identity - two names of one unit, 'Euc' and '-': nothing is converted and the Array hands
+                # out its own container, exactly as it does for its own unit)
+                for kind in (() if list(ref) == list(VALS) else ("list", "ndarray")):
                     a2 = Array(cat, {"list": list(VALS), "ndarray": numpy.array(VALS)}[kind], u)
                     r1 = a2.GetValues(v)
                     if kind == "list":
